@@ -11,6 +11,7 @@ NOTE = ("Trusted: go/ssa construction (x/tools v0.29.0), the engine's instructio
 
 # property -> (claimed?, level text, design ref)
 CLAIMED = {
+ "C13": ("Interleavings are not executed. Decided instead, on every symbolic path of the encode/decode/split/batch jobs: the reduction side-conditions under which any interleaving of calls on distinct values equals a sequential run (no store to package-level state, no use of a pooled buffer after Put, disjoint write sets of the batch encoder's goroutines under every completion order), with the pooled buffer's content - the only schedule-dependent value - as a free solver variable.", "DESIGN.md 8 C13"),
  "C05": ("Every codec except GB18030 is executed symbolically (including the real x/text UTF-16 and Windows-1252 transformers with the tables their own initialisers build) on texts containing one symbolic scalar value ranging over all code points; 'encode fails or decode(encode(s)) == s', justified refusals, the inversion of the protocol-level content decoders and the refusal of every unsupported coding number are solver-decided.", "DESIGN.md 8 C05"),
  "C09": ("The comparator's order axioms are solver-decided over symbolic part counts and all valid codings; Build is executed for enumerated candidate lists with every map iteration order and every goroutine completion order explored as nondeterministic choices, the winner compared with an independent (parts, documented priority) minimum.", "DESIGN.md 8 C09"),
  "C06": ("The split entry points are executed symbolically on every ASCII text, every UCS-2 text of ASCII-range characters and every valid GSM 7-bit septet stream of the listed lengths (content, escape positions near the part boundaries, reference octet all symbolic); payload concatenation equals the encoded stream against a reference segmentation and a reference septet packer; fallback and reported coding for every BMP character and every invalid coding number.", "DESIGN.md 8 C06"),
